@@ -7,15 +7,35 @@ import ddlib
 from ddlib import hx, coq_node
 
 ID = "C30"
-THEOREMS = []
+THEOREMS = ["C30_escape_term", "C30_escape_quoted", "C30_lex_term", "C30_lex_prefix", "C30_quoted", "C30_int_bound",
+            "C30_value_term", "C30_value_quoted", "C30_value_range", "C30_fold_and", "C30_fold_or",
+            "C30_node_roundtrip", "C30_node_roundtrip_nofloat", "C30_text_roundtrip", "C30_roundtrip_nonvacuous",
+            "C30_whitespace_refuted", "C30_attr_raw_refuted", "C30_float_text_refuted", "C30_keyword_refuted",
+            "C30_wildcard_raw_refuted", "C30_wildcard_multiterm_refuted", "C30_string_bound_refuted",
+            "C30_not_not_refuted", "C30_nodocs_nested_refuted", "C30_range_panic_refuted",
+            "C30_unicode_blank_refuted"]
 IMPORTS = ("From Coq Require Import List ZArith NArith String.\n"
            "From VRL Require Import Base.Bytes Base.Value Base.Lit Model.DdNode Model.DdSearch Corr.C30.\n"
            "Local Open Scope string_scope.")
 MANIFEST = {
     "level": "proof",
-    "technique": "",
-    "text": "",
-    "note": "",
+    "technique": "Coq proofs on a hand model of grammar.pest (recursive descent with pest's skip/atomicity semantics), the "
+                 "QueryVisitor and to_lucene: escaping/lexical lemmas and the tree-level round trip by nested induction; "
+                 "differential correspondence of parse / to_lucene vs the implementation on PEG-generated and mutated "
+                 "texts; the round trip itself as oracle on the implementation",
+    "text": "Closed Coq theorems: unescape(lucene_escape s)=s and unescape(quoted_escape s)=s for all s; the escaped text of "
+            "a term is consumed as exactly one TERM (and TERM_PREFIX, PHRASE) of the grammar; printed integers read back; "
+            "visit_query folds AND/OR lists into the Boolean node; and parse(to_lucene n) = n for every `safe` tree n "
+            "(induction over negations, AND/OR lists with their parentheses, and all leaves except wildcards), hence "
+            "parse(to_lucene(parse q)) = parse q for accepted texts with a safe tree. The unchanged implementation "
+            "violates the property outside `safe`: eleven finding classes, each with a `_refuted` witness in Coq, a "
+            "corpus case and a specific matcher.",
+    "note": "Partial: NWild leaves and a bare multi-word term as the whole query are outside `safe` (not proved, they "
+            "round-trip on all generated cases). Float bounds: their f64 Display text is a hypothesis (num_text_ok) "
+            "of C30_node_roundtrip; C30_node_roundtrip_nofloat is hypothesis-free. In the correspondence run the "
+            "model's to_lucene receives the implementation's own Display text of each float. Text is modelled as UTF-8 "
+            "bytes (every special character of the grammar is ASCII); i64/f64 from_str are modelled (f64 by exact "
+            "rational rounding with SpecFloat). pest's optimizer is trusted to preserve the PEG semantics. No axioms.",
     "design_ref": "DESIGN.md section 5 C30",
 }
 
@@ -61,8 +81,20 @@ def nontrivial(c):
     return len(c["q"]) >= 3
 
 
+MIXED = re.compile(r"\[[^\]\}]*\}|\{[^\]\}]*\]")
+
+
 def known_matcher(entry, case, out):
-    return False
+    """A failing round trip belongs to a recorded finding only when the parsed tree shows that very hazard."""
+    if not isinstance(out, dict):
+        return False
+    cls = entry["match"]["class"]
+    t = out.get("t")
+    if t == "panic":
+        return cls == "range-panic" and MIXED.search(case.get("q", "")) is not None
+    if not isinstance(t, dict):
+        return False
+    return cls in ddlib.tree_hazards(t, dict(out.get("fl", [])))
 
 
 def main(run, args):
